@@ -69,7 +69,13 @@ PROPS["C04"] = dict(
                 "tables equal the documented rectangles, CheckCoords accepts exactly the closed rectangles (widened by 100 km unless mgrslimits), "
                 "zone-string and EPSG round trips (finite: decide; EPSG: omega). The executable model of StandardZone / Forward bookkeeping / Reverse "
                 "acceptance / DecodeZone / EncodeZone / EPSG / same-zone Transfer is compared exactly with the implementation; closure, transfer "
-                "consistency and outputs-untouched-on-throw are oracles on the implementation. Partial: the 5 nm accuracy of the projections is C06/C11."),
+                "consistency and outputs-untouched-on-throw are oracles on the implementation. Partial: the 5 nm accuracy of the projections is C06/C11. "
+                "Added theorems on the value semantics of the executed binary64 model: checkCoords_iff / checkCoords_rectangles (accepted ⇔ NaN or finite inside "
+                "the closed rectangle of the Gen tables ± 100 km unless mgrslimits; ±inf rejected); standardZone_spec / standardZone_utm / standardZone_explicit / "
+                "standardZone_nonfinite (the zone rule on real-valued latitude and exactly reduced longitude, through floor/remainder/AngNormalize exactness, "
+                "not only integer degrees); transfer_same / transfer_diff / transfer_spec (full Transfer around arbitrary Reverse/Forward kernels: same zone ⇒ "
+                "unchanged except the ∓10^7 m northing shift, UPS hemisphere change ⇒ error, different zone ⇒ Forward∘Reverse with MATCH = input zone); the "
+                "full-Transfer model is executed against the implementation (op transfer_via, kernels = the implementation's own Reverse/Forward, bit-exact)."),
     level_note=("MGRS/UTMUPS constants, range tables (as C++ constant expressions evaluated by the translator), zonespec enum and EPSG constants regenerated "
                 "from the sources each run; strtol modelled by hand; projection kernels are parameters supplied by the implementation"),
     technique="Lean 4 proof of the discrete rules + exact correspondence of the executable model against the implementation",
@@ -114,7 +120,15 @@ PROPS["C08"] = dict(
                 "flip laws; TestPoint/TestEdge return what AddPoint/AddEdge followed by Compute return and do not change the state; Clear restores the "
                 "initial state; sums are invariant under rotation of the vertex list. The executable model (exact rational sums, the solver's edge "
                 "values as kernel inputs) is compared with the implementation over random histories; start-vertex, +360k, constant-shift, reversal, "
-                "flag and cut-additivity laws are oracles on the implementation."),
+                "flag and cut-additivity laws are oracles on the implementation. "
+                "Added theorems: areaReduce_cong / areaReduce_eq_of_cong (the reduced area is ±(area + crossings·A/2) modulo A and depends on nothing else); "
+                "areaReduce_flip (reverse: a ↦ −a signed, A−a unsigned, with the end points); areaReduce_neg_area, transitQ_antisymm and reverse_traversal "
+                "(reversed traversal = reverse flag flipped); polygon_eq and start_independent (the whole run AddPoint*;Compute of the executed state machine "
+                "over any backend equals AreaReduce of cyclic sums and is invariant under rotation of the vertex list); edge_relabel, relabel_cong and "
+                "area_relabel_invariant (λ_i ↦ λ_i+360k under the tie contract S12(+180)−S12(−180)=A/2: the pair (ΣS12, crossings) is invariant modulo A although "
+                "neither component is); crossings_swept and area_shift_invariant (360·Σtransit = ΣAngDiff on closed chains; constant shifts); cut_additive "
+                "(areas add modulo A along a diagonal for an antisymmetric backend). The relabel/shift theorems are stated on the ℚ-level edge contract (Edge), "
+                "the run theorems on the executed definitions with the parity antisymmetry of transit as a hypothesis (non-vacuity examples by decide)."),
     level_note=("hand-written model of PolygonArea.cpp; the geodesic/rhumb solvers are kernels whose per-edge outputs are fed to the model (their "
                 "correctness is C01–C03/C09); AngDiff/AngNormalize/remainder are the exact F64 models of C16"),
     technique="Lean 4 proof (induction over histories, floor arithmetic over ℚ) + correspondence of the exact-arithmetic model against the implementation",
@@ -161,7 +175,14 @@ PROPS["C12"] = dict(
                 "and additive in the mask, contained in the request, empty (NaN return) without DISTANCE_IN in distance mode; LATITUDE, AZIMUTH and "
                 "LONG_UNROLL are always available on a line. The model is compared exactly with the implementation for every mask/capability "
                 "combination sampled (exhaustive in thorough); independence of the *values* from the mask, overload and capabilities is a "
-                "bit-for-bit oracle on the implementation."),
+                "bit-for-bit oracle on the implementation. "
+                "Added theorems on a hand-written symbolic dataflow model of GenPosition's output assembly (series and exact line classes; expression trees "
+                "over uninterpreted symbols, fields guarded by the CAP bit under which LineInit sets them; not executed — validated by the bit-for-bit "
+                "oracle): value_mask_independent (two masks under which an output is written assign it the same term; lon2 additionally needs equal "
+                "LONG_UNROLL), genPosition_isSome_iff (assigned ⇔ in the executed `written` set), value_caps_independent with cap_bits (capabilities that "
+                "contain an output's whole flag leave no unset field in its term; CAP bits of the flags re-read from the headers), third_point_distance / "
+                "third_point_arc / inverseLine_third_point / directLine_third_point (SetDistance/SetArc/InverseLine/DirectLine address the σ12 of the defining "
+                "call; InverseLine sets a13 = a12 and adds DISTANCE when DISTANCE_IN is requested)."),
     level_note="mask/captype enums of Geodesic, GeodesicExact and Rhumb regenerated from the headers each run; hand-written model of the mask logic of GenPosition/GenDirect/GenInverse",
     technique="Lean 4 proof of the mask algebra over the extracted enums + exhaustive exact correspondence of written sets",
     assumptions=["value independence is checked on the implementation (bit equality), not derived from a dataflow model"],
